@@ -185,6 +185,8 @@ def tasks(tier, seed):
     # the same configurations handed over with their keys in string-sorted order ('123' < '124' < '48' < '62'), as
     # a configuration loaded from JSON written with sort_keys has them: "ascending element order" is numeric
     combos += [('PKGS', 'latin_1'), ('GEN%dS' % (seed % 14), 'cp500')]
+    # ... and after a JSON round trip (equal, not identical, strings)
+    combos += [('PKGJ', 'cp500'), ('GEN%dJ' % ((seed + 3) % 14), 'latin_1')]
     if tier == 'thorough':
         combos += [('PKG', 'cp037'), ('PKG', 'ascii')] + [('GEN%d' % s, 'cp500') for s in range(14)]
         combos += [('GEN%dS' % s, 'latin_1') for s in range(14)]
